@@ -105,7 +105,7 @@ func runC17(r *Run) {
 	r.Explain = "Static decision of structural necessary conditions of C17 (native supply and fee distribution): the only mint/burn site of the custom modules that is reachable from a live entry point is the exomint epoch hook, which mints once (no loop) under the configured identifier and a non-zero reward and forwards the same coins to the fee collector; AllocateTokens moves exactly the fee collector's whole balance before any early exit and derives the booked total from it; each allocation function follows the remainder-accumulator idiom (every allotted amount is subtracted from a remainder initialised to the total, and the remainder goes to the community pool), the validator split is commission + (tokens - commission); portions are truncating; the distribution hook precedes the mint hook."
 	r.NotDec = []string{"solvency as a run-time inequality", "proportionality numerics", "ordinary EVM/bank burns (inherited evmos code, excluded by package)"}
 	r.Assume = []string{"bank keeper MintCoins/BurnCoins are the only ways to change supply", "DecCoins.Sub/Add are exact"}
-	r.rule("C17.R1", "who-may-mint: MintCoins/BurnCoins call sites of the custom modules are reachable only from the exomint epoch hook; the hook mints once, under identifier == params.EpochIdentifier and a non-zero reward, and forwards the same coins", 4)
+	r.rule("C17.R1", "who-may-mint: MintCoins/BurnCoins call sites of the custom modules are reachable only from the exomint epoch hook; the hook mints once, under identifier == params.EpochIdentifier and a non-zero reward and under nothing else, and forwards the same coins", 5)
 	r.rule("C17.R2", "move-all: AllocateTokens sends GetAllBalances(fee collector) to the distribution account unconditionally, before any early exit, and the booked total derives from the same value", 3)
 	r.rule("C17.R3", "booking balance: remainder-accumulator idiom in AllocateTokens and AllocateTokensToStakers; validator split = commission + (tokens - commission); zero-power arm books everything to the community pool", 8)
 	r.rule("C17.R4", "portions are truncating (MulDecTruncate / QuoTruncate)", 3)
@@ -196,8 +196,10 @@ func runC17(r *Run) {
 		for _, c := range mints {
 			inLoop := hv.innermostLoop(c) != nil
 			idOK, nzOK := false, false
+			var others []string
 			for _, f := range hv.FactsAt(c, false) {
 				s := exprString(f.Atom)
+				idBefore := idOK
 				if cm, ok := factCmp(f); ok && cm.Op == "==" && exprString(cm.R) == "0" {
 					// strings.Compare(identifier, params.EpochIdentifier) == 0
 					if call, ok := stripParens(cm.L).(*ast.CallExpr); ok && len(call.Args) == 2 {
@@ -217,10 +219,21 @@ func runC17(r *Run) {
 				if cm, ok := factCmp(f); ok && cm.Op == "==" && hv.objOf(cm.L) == idParam && lastField(cm.R) == "EpochIdentifier" {
 					idOK = true
 				}
-				if strings.HasSuffix(s, "EpochReward.IsZero()") && !f.Truth {
+				isNZ := strings.HasSuffix(s, "EpochReward.IsZero()") && !f.Truth
+				if isNZ {
 					nzOK = true
 				}
+				// anything else on the way to the mint makes some epoch end of the configured identifier pass without one
+				isID := idOK && !idBefore
+				if !isID && !isNZ && !hv.isExpandedAlias(f) && !mintIdentifierFact(hv, f, idParam) {
+					if f.Truth {
+						others = append(others, s)
+					} else {
+						others = append(others, "!("+s+")")
+					}
+				}
 			}
+			r.check(len(others) == 0, "C17.R1", "hook|mint-every-epoch-end", hv.pos(c), "nothing but the identifier match and the non-zero reward decides whether the hook mints", "the mint is also conditioned on "+strings.Join(uniq(others), ", ")+": an epoch of the configured identifier can end without the reward being minted")
 			r.check(!inLoop && idOK && nzOK, "C17.R1", "hook|mint-guards", hv.pos(c), "mint happens once, for the configured identifier, with a non-zero reward",
 				fmt.Sprintf("mint call: inLoop=%v identifier==params.EpochIdentifier=%v reward!=0=%v", inLoop, idOK, nzOK))
 			// forwarded
@@ -312,8 +325,50 @@ func runC17(r *Run) {
 		}
 		r.check(zp, "C17.R3", "AllocateTokens|zero-power", at.pos(at.Decl), "with zero total power everything is booked to the community pool", "the zero-power arm does not add the whole collected amount to the community pool")
 		// SetFeePool after both
-		sf := len(at.CallsNamed("SetFeePool")) >= 2
-		r.check(sf, "C17.R3", "AllocateTokens|pool-stored", at.pos(at.Decl), "the fee pool is stored on both arms", "SetFeePool is missing on an arm")
+		// the pool is an in-memory object that the callees add dust and unallotted shares to: every success exit
+		// after it was loaded stores it, unconditionally, as the statement before the return
+		sf, nRet := len(at.CallsNamed("SetFeePool")) >= 2, 0
+		var poolDef ast.Node
+		var poolObj types.Object
+		ast.Inspect(at.Decl.Body, func(n ast.Node) bool {
+			a, ok := n.(*ast.AssignStmt)
+			if ok && len(a.Lhs) == 1 && len(a.Rhs) == 1 && at.calleeName2(a.Rhs[0]) == "GetFeePool" && poolDef == nil {
+				poolDef, poolObj = a, at.objOf(a.Lhs[0])
+			}
+			return true
+		})
+		why := "SetFeePool is missing on an arm"
+		if poolDef == nil {
+			sf, why = false, "the fee pool is not loaded by GetFeePool"
+		} else {
+			ast.Inspect(at.Decl.Body, func(n ast.Node) bool {
+				if _, isLit := n.(*ast.FuncLit); isLit {
+					return false
+				}
+				rs, ok := n.(*ast.ReturnStmt)
+				if !ok || rs.Pos() < poolDef.End() || returnsErr(at, rs) || contradictoryFacts(at.FactsAt(rs, false)) {
+					return true
+				}
+				nRet++
+				stored := false
+				if blk, isB := at.parent(rs).(*ast.BlockStmt); isB {
+					for i, st := range blk.List {
+						if st == ast.Stmt(rs) && i > 0 {
+							if es, isE := blk.List[i-1].(*ast.ExprStmt); isE {
+								if c, isC := es.X.(*ast.CallExpr); isC && at.calleeName(c) == "SetFeePool" && len(c.Args) == 2 && at.objOf(c.Args[1]) == poolObj {
+									stored = true
+								}
+							}
+						}
+					}
+				}
+				if !stored {
+					sf, why = false, "the success exit at "+at.pos(rs)+" is not directly preceded by SetFeePool(ctx, <the loaded pool>): what the validator and staker allocations added to the in-memory pool (dust, the staker share of an inactive operator) is moved to the distribution account but booked nowhere"
+				}
+				return true
+			})
+		}
+		r.check(sf && nRet >= 2, "C17.R3", "AllocateTokens|pool-stored", at.pos(at.Decl), "the fee pool is stored, unconditionally, right before every success exit of AllocateTokens", why)
 	}
 	{
 		var total types.Object
@@ -698,4 +753,36 @@ func c17CommunityTax(r *Run) {
 		}
 	}
 	r.check(len(others) == 0, "C17.R6", "writer|only-validated-paths", "-", "fee-distribution params are stored only by the update message handler and InitGenesis", "fee-distribution params are also stored by "+strings.Join(others, ", ")+", which does not go through Params.Validate")
+}
+
+// mintIdentifierFact: the fact compares the hook's identifier parameter with the configured identifier (either
+// spelling: strings.Compare(...) == 0 or ==); several facts of that kind can hold at once (mirrored forms).
+func mintIdentifierFact(hv *FnView, f Fact, idParam types.Object) bool {
+	cm, ok := factCmp(f)
+	if !ok {
+		return false
+	}
+	mentions := func(e ast.Expr) bool {
+		found := false
+		ast.Inspect(e, func(n ast.Node) bool {
+			if id, ok := n.(*ast.Ident); ok && hv.Info.ObjectOf(id) == idParam {
+				found = true
+			}
+			return true
+		})
+		return found
+	}
+	return (mentions(cm.L) || mentions(cm.R)) && (strings.Contains(exprString(cm.L), "EpochIdentifier") || strings.Contains(exprString(cm.R), "EpochIdentifier"))
+}
+
+// contradictoryFacts: the facts name one atom both true and false -- the node is unreachable.
+func contradictoryFacts(fs []Fact) bool {
+	for i := range fs {
+		for j := i + 1; j < len(fs); j++ {
+			if fs[i].Truth != fs[j].Truth && sameExpr(fs[i].Atom, fs[j].Atom) {
+				return true
+			}
+		}
+	}
+	return false
 }
